@@ -77,6 +77,57 @@ Section Sort.
 End Sort.
 
 (* ------------------------------------------------------------------------------------- *)
+(* List::sort once more, statement by statement at the level of node pointers.  sort() does  *)
+(* not relink anything, so the nodes begin..end are the positions 0..n-1 of the list of      *)
+(* their values, `p->next` is p + 1, and `p->value` is nth p.  SeqSortPtrProofs shows that    *)
+(* this transcription computes exactly `sort_vals` (which is what the drivers run: linear     *)
+(* time per partition step instead of quadratic).                                            *)
+(* ------------------------------------------------------------------------------------- *)
+Section SortPtr.
+  Variable key : Z -> Z.
+
+  (* QuickSort::swap(a, b): T tmp = a->value; a->value = b->value; b->value = tmp; *)
+  Definition swap_at (i j : nat) (a : list Z) : list Z :=
+    upd j (nth i a 0) (upd i (nth j a 0) a).
+
+  (* do { ptr2 = ptr2->next;
+          if(ptr2->value < pivot) { ptr0 = ptr1; ptr1 = ptr1->next; swap(ptr1, ptr2); }
+     } while(ptr2 != right);            `pivot` is a reference to left->value *)
+  Fixpoint qs_loop (fuel left right : nat) (a : list Z) (p0 p1 p2 : nat) : option (list Z * nat * nat) :=
+    match fuel with
+    | O => None
+    | S f =>
+        let p2 := S p2 in
+        let '(a1, p0', p1') :=
+          if vlt key (nth p2 a 0) (nth left a 0) then (swap_at (S p1) p2 a, p1, S p1) else (a, p0, p1) in
+        if Nat.eqb p2 right then Some (a1, p0', p1') else qs_loop f left right a1 p0' p1' p2
+    end.
+
+  (* static void sort(Item* left, Item* right) *)
+  Fixpoint qs_sort (fuel left right : nat) (a : list Z) : option (list Z) :=
+    match fuel with
+    | O => None
+    | S f =>
+        match qs_loop (length a) left right a left left left with
+        | None => None
+        | Some (a1, p0, p1) =>
+            let a2 := swap_at left p1 a1 in                               (* swap(left, ptr1) *)
+            let p1' := if Nat.eqb p1 right then p1 else S p1 in           (* if(ptr1 != right) ptr1 = ptr1->next *)
+            match (if Nat.eqb left p0 then Some a2 else qs_sort f left p0 a2) with   (* if(left != ptr0) sort(left, ptr0) *)
+            | None => None
+            | Some a3 => if Nat.eqb p1' right then Some a3 else qs_sort f p1' right a3  (* if(ptr1 != right) sort(ptr1, right) *)
+            end
+        end
+    end.
+
+  (* void sort(): if(endItem.prev == 0 || _begin.item == endItem.prev) return;
+     QuickSort::sort(_begin.item, endItem.prev) *)
+  Definition sort_ptr (l : list Z) : list Z :=
+    if Nat.ltb (length l) 2 then l else
+    match qs_sort (length l) O (length l - 1) l with Some r => r | None => l end.
+End SortPtr.
+
+(* ------------------------------------------------------------------------------------- *)
 (* node lists: List<T> and PoolList<T>                                                     *)
 (* ------------------------------------------------------------------------------------- *)
 Record nlist := mk_nlist {
